@@ -50,6 +50,7 @@ fn main() {
         "C11" => checks::c11::run(&tier, only.as_ref()),
         "C14" => checks::c14::run(&tier, only.as_ref()),
         "C16" => checks::c16::run(&tier, only.as_ref()),
+        "C17" => checks::c17::run(&tier, only.as_ref()),
         "C08" => checks::c08::run(&tier, only.as_ref()),
         "C03" => checks::c03::run(&tier, only.as_ref()),
         _ => {
